@@ -326,6 +326,8 @@ class Evaluator(object):
             recv = self.ev(f.value, loc)
             if isinstance(recv, Obj) and f.attr in recv.__dict__.get('_methods', {}):
                 return self.call_user(recv.__dict__['_methods'][f.attr], [recv] + args, kw)
+            if isinstance(recv, Obj) and isinstance(recv.__dict__['_attrs'].get(f.attr), Native):
+                return recv.__dict__['_attrs'][f.attr].fn(*args, **kw)
             for t, names in SAFE_METHODS.items():
                 if isinstance(recv, t) and f.attr in names:
                     try:
